@@ -1,6 +1,6 @@
 (* C11 -- fine-structure convolution enumerates the exact isotopologue distribution. *)
 From Coq Require Import List ZArith NArith Bool Arith String Permutation.
-From CE Require Import Num OField Mz Peak Conv ConvSpec ConvProofs NumQc OFieldQc.
+From CE Require Import Num OField Mz Peak Conv ConvSpec ConvProofs ConvOutput NumQc OFieldQc.
 Import ListNotations.
 
 Section C11.
@@ -43,3 +43,41 @@ End C11.
 
 Print Assumptions C11_threshold_zero. Print Assumptions C11_multiset. Print Assumptions C11_survivors.
 Print Assumptions C11_no_junk. Print Assumptions C11_tail.
+
+(* the whole public function over an ordered field: sorted by m/z, and -- when something survives -- intensities
+   summing to 1, none below a non-negative threshold *)
+From Coq Require Import Sorted.
+Section C11b.
+  Context {F : Type} (N : Num F).
+
+  Theorem C11_output_sorted : OField N -> forall c z carrier thr,
+    StronglySorted (fun a b => leb N (mz a) (mz b) = true) (isotopic_convolution N c z carrier thr).
+  Proof. exact (output_sorted N). Qed.
+
+  Theorem C11_output_sum : OField N -> forall c z carrier thr,
+    c <> [] -> (forall ec, In ec c -> (0 <= snd ec < 2 ^ 31)%Z) -> abundances_ok N c ->
+    isotopic_convolution N c z carrier thr <> [] ->
+    fsum N (map inten (isotopic_convolution N c z carrier thr)) = one N.
+  Proof. exact (output_sum N). Qed.
+
+  Theorem C11_output_above : OField N -> forall c z carrier thr p,
+    c <> [] -> (forall ec, In ec c -> (0 <= snd ec < 2 ^ 31)%Z) -> abundances_ok N c ->
+    In p (isotopic_convolution N c z carrier thr) -> leb N thr (inten p) = true.
+  Proof. exact (output_above N). Qed.
+End C11b.
+
+Print Assumptions C11_output_sorted. Print Assumptions C11_output_sum. Print Assumptions C11_output_above.
+
+(* non-vacuity: three carbon atoms in exact arithmetic satisfy every hypothesis; 8 arrangements, 4 isotopologue masses *)
+From Coq Require Import QArith Qcanon.
+Definition c11_C : dist (F:=Qc) := [(Qc_of_Z 12%Z, of_dec NumQc 9893%Z 4%nat); (of_dec NumQc 13003355%Z 6%nat, of_dec NumQc 107%Z 4%nat)].
+Example C11_nonvacuous :
+  OField NumQc /\ abundances_ok NumQc [(c11_C, 3%Z)]
+  /\ List.length (conv_all NumQc [(c11_C, 3%Z)] (Q2Qc 0)) = 8%nat
+  /\ List.length (isotopic_convolution NumQc [(c11_C, 3%Z)] 2%Z (PROTON NumQc) (of_dec NumQc 1%Z 3%nat)) = 4%nat.
+Proof.
+  split; [exact NumQc_OField|]. split; [|split; vm_compute; reflexivity].
+  intros ec ma [<-|[]] Hin. cbn [fst] in Hin.
+  destruct Hin as [<-|[<-|[]]]; split; vm_compute; reflexivity.
+Qed.
+Print Assumptions C11_nonvacuous.
